@@ -44,4 +44,4 @@ def run_doc(out, roles):
     # (the harnesses in flight were lost: exit 2), so the limit is wider and fewer solvers run at once
     quick = out.tier == "quick"
     run_k(out, "doc", "check", hs, jobs=14 if quick else 10, harness_timeout=1500 if quick else 3600,
-          overall_timeout=2400 if quick else 6 * 3600, mem_gb=12 if quick else 32, tag="doc")
+          overall_timeout=3600 if quick else 6 * 3600, mem_gb=12 if quick else 32, tag="doc")
